@@ -580,6 +580,13 @@ class PyExec:
 
     def ev_BinOp(self, st, n):
         op = self.OPS.get(type(n.op))
+        if isinstance(n.op, ast.Pow):
+            # constant ** constant (e.g. 2**30) only: folded; anything else stays outside the subset
+            a, b = self.ev(st, n.left), self.ev(st, n.right)
+            if (isinstance(a, PInt) and isinstance(b, PInt) and z3.is_int_value(z3.simplify(a.t)) and z3.is_int_value(z3.simplify(b.t))
+                    and 0 <= z3.simplify(b.t).as_long() <= 4096):
+                return PInt(z3.simplify(a.t).as_long() ** z3.simplify(b.t).as_long())
+            raise OutOfSubset("binary operator Pow on non-constants")
         if op is None:
             raise OutOfSubset("binary operator %s" % type(n.op).__name__)
         a = self.ev(st, n.left)
